@@ -1,6 +1,7 @@
 package main
 
 import (
+	"sort"
 	"fmt"
 	"go/token"
 	"go/types"
@@ -248,6 +249,10 @@ func (x *Engine) inline(fr *Frame, st *State, callee *ssa.Function, args []Val, 
 		}
 	}
 	nf.entry = fr.entryState()
+	if nf.spec != nil {
+		// the callee's contract names (receiver, parameters) inside its own loop invariants
+		nf.env = x.contractEnv(nf.spec, sig, args)
+	}
 	unroll := false
 	if len(nf.loops) > 0 {
 		for _, a := range args {
@@ -533,6 +538,19 @@ func (x *Engine) applyContract(fr *Frame, st *State, fs *FuncSpec, sig *types.Si
 		}
 		if len(fs.Modifies) > 0 {
 			x.bumpEpoch(st)
+			{
+				// what the callee stored to is known only through its postconditions
+				var wks []string
+				for k := range x.compSort {
+					if strings.HasPrefix(k, "$wr:") {
+						wks = append(wks, k)
+					}
+				}
+				sort.Strings(wks)
+				for _, k := range wks {
+					x.havocKey(st, k)
+				}
+			}
 		}
 	}
 	// a callee may allocate
@@ -567,6 +585,9 @@ func (x *Engine) applyContract(fr *Frame, st *State, fs *FuncSpec, sig *types.Si
 			continue // a sequential postcondition is not valid under interference
 		}
 		if !x.conc && len(c.Props) > 0 && !hasProp(c.Props, x.curProp) {
+			continue
+		}
+		if modeExcluded(c.Props, x.conc) {
 			continue
 		}
 		ev := &Eval{x: x, st: st, old: pre, env: env, pkg: pkg}
